@@ -254,6 +254,7 @@ func init() { streams["C02"] = runC02 }
 
 func runC02(r *Run) {
 	c02TypedValues(r)
+	c02PaddedValues(r)
 	r.Imports = []string{"Model.Tok"}
 	r.Rule("directive-free fragments and full documents generated from a grammar of parser-stable HTML (block, inline, void, list, explicit table, pre / textarea, script / style elements; attributes and text written with character references &amp; &lt; &gt; &quot; &#39; &#x3c; &nbsp; &copy;; doctype): " +
 		"parse(template) and parse(render(template)) with x/net/html must be the same document, whitespace and comments aside; for fragments inside the model's vocabulary the theorem's reading function (tokenize, normalise, build, decode) is evaluated in Coq on the bytes the implementation wrote and must return the parsed template; " +
@@ -370,6 +371,38 @@ func c02TypedValues(r *Run) {
 			if err != nil || !found || strings.Join(strings.Fields(sink), " ") != strings.Join(strings.Fields(w), " ") {
 				r.Fail("a value that is not a string does not appear as its string form between its neighbours", map[string]string{"oracle": "typed-interp", "position": t.name},
 					map[string]any{"template": t.tpl, "value": fmt.Sprintf("%T(%v)", v, v), "expected": w, "parsed": sink, "output": out, "err": fmt.Sprint(err)})
+			}
+		}
+	}
+}
+
+// string values with white space at their ends, interpolated into attributes: the attribute is the neighbours plus the
+// value, blanks included (attribute values are not white-space-insensitive)
+func c02PaddedValues(r *Run) {
+	for _, v := range []string{"  padded  ", "line\n", "", "\ttab", " ", "a  b", "\n\nx", "x \t", "\u00a0nb\u00a0"} {
+		for _, t := range []struct{ name, tpl, attr, pre, post string }{
+			{"whole", `<input data-m="1" value="{{ v }}">`, "value", "", ""},
+			{"after-text", `<p data-m="1" title="say: {{ v }}">x</p>`, "title", "say: ", ""},
+			{"before-text", `<p data-m="1" data-k="{{ v }} end">x</p>`, "data-k", "", " end"},
+			{"between", `<p data-m="1" data-k="[{{ v }}]">x</p>`, "data-k", "[", "]"},
+			{"twice", `<p data-m="1" data-k="{{ v }}{{ v }}">x</p>`, "data-k", "", "V"},
+			{"in-loop", `<div v-for="q in one"><p data-m="1" title="a {{ v }}">x</p></div>`, "title", "a ", ""},
+			{"in-branch", `<p v-if="no">n</p><p v-else data-m="1" title="a {{ v }}">x</p>`, "title", "a ", ""},
+		} {
+			out, err := c03RenderAny(t.tpl, map[string]any{"v": v, "one": []any{1}, "no": false})
+			_, sink, found := c01Parse(out, "1", t.attr)
+			want := t.pre + v + t.post
+			if t.post == "V" {
+				want = v + v
+			}
+			r.Eval("padded-interp:"+t.name+":"+v, true, nil)
+			r.Count("stream:padded-values(oracle only)")
+			if want == "" && !found {
+				continue
+			}
+			if err != nil || sink != want {
+				r.Fail("an interpolated attribute is not its neighbours plus the value's string form", map[string]string{"oracle": "padded-interp", "position": t.name},
+					map[string]any{"template": t.tpl, "value": v, "expected": want, "parsed": sink, "output": out, "err": fmt.Sprint(err)})
 			}
 		}
 	}
